@@ -94,10 +94,12 @@ Qed.
 (* ---- size ---- *)
 Lemma pure_wfc : forall e, pure e = true -> wfc e = true.
 Proof.
-  induction e; intros H; try discriminate H; try reflexivity; cbn [pure wfc] in *.
-  - destruct (binop_opcode op); [|discriminate]. apply andb_prop in H. destruct H as [H1 H2].
-    rewrite IHe1, IHe2 by assumption. reflexivity.
-  - apply andb_prop in H. destruct H as [Ho H1]. unfold unop_ok in Ho. rewrite Ho, IHe by assumption. reflexivity.
+  apply (pure_induction (fun e => wfc e = true)); try reflexivity.
+  - intros op c l r Hc _ _ H1 H2. cbn [wfc]. rewrite Hc, H1, H2. reflexivity.
+  - intros op t Ho _ H. cbn [wfc]. unfold unop_ok in Ho. rewrite Ho, H. reflexivity.
+  - intros l _ HF. cbn [wfc]. induction HF as [|x r Hx Hr IH]; [reflexivity|]. cbn [forallb]. rewrite Hx, IH. reflexivity.
+  - intros a i _ _ H1 H2. cbn [wfc]. rewrite H1, H2. reflexivity.
+  - intros a f t _ _ _ H1 H2 H3. cbn [wfc]. rewrite H1, H2, H3. reflexivity.
 Qed.
 
 Lemma simple_wfb t : simple t = true -> wfb t = true.
@@ -108,25 +110,25 @@ Proof.
   cbn [wfb wfc is_var andb]. apply pure_wfc. exact Hp.
 Qed.
 
-Lemma bytecode_len t s s' : simple t = true -> ByteCode t s = CompOk s' -> ncs s' - ncs s <= 4 * esize t.
+Lemma bytecode_len t s s' : simple t = true -> ByteCode t s = CompOk s' -> ncs s' - ncs s <= 4 * Z.of_nat (esize t).
 Proof.
   intros Hs HB. unfold ByteCode in HB.
   destruct ((instr <- comp t 0 (pass fl0);; (if negb (Src0 instr =? AddrStck) then emit (Z.lor instr (New PUSH)) else cret tt)) s)
     as [[u sfin]| |] eqn:HC; try discriminate HB. injection HB as <-.
-  assert (G : grows ((4 * esize t - 1) + 1) (instr <- comp t 0 (pass fl0);;
+  assert (G : grows ((4 * Z.of_nat (esize t) - 1) + 1) (instr <- comp t 0 (pass fl0);;
                (if negb (Src0 instr =? AddrStck) then emit (Z.lor instr (New PUSH)) else cret tt))).
   { apply grows_bind.
     - destruct t; try (match goal with |- grows _ (comp ?e _ _) =>
-                         apply (grows_le (clen e)); [pose proof (clen_le_size e); lia|apply comp_grows; exact Hs] end);
+                         apply (grows_le (Z.of_nat (clen e))); [pose proof (clen_le_size e Hs); lia|apply comp_grows; exact Hs] end);
         try discriminate Hs.
       match goal with H : simple (NAssign ?a ?b) = true |- _ => destruct a; try discriminate H; rename b into rhs end.
       cbn [simple] in Hs. apply andb_prop in Hs. destruct Hs as [Hp _].
       rewrite comp_assign_unfold. cbn [esize].
-      pose proof (clen_le_size rhs) as B. pose proof (clen_nonneg rhs) as N. pose proof (esize_pos rhs) as P.
+      pose proof (clen_le_size rhs Hp) as B. pose proof (esize_pos rhs) as P.
       apply grows_if.
       + apply (grows_le (0 + (1 + 0))); [lia|]. apply grows_bind; [apply name_grows|]. intros w.
         cbv zeta. apply grows_bind; [apply grows_emit|]. intros _. apply grows_enc.
-      + apply (grows_le (clen rhs + (0 + (1 + 0)))); [lia|].
+      + apply (grows_le (Z.of_nat (clen rhs) + (0 + (1 + 0)))); [lia|].
         apply grows_bind; [apply comp_grows; exact Hp|]. intros si.
         apply grows_bind; [apply name_grows|]. intros w. cbv zeta.
         apply grows_bind; [apply grows_emit|]. intros _. apply grows_enc.
@@ -142,7 +144,7 @@ Definition tree_agrees (tr : tree_result) (r : res value) : Prop :=
   | _, _ => False
   end.
 
-Definition small (t : node) : Prop := 4 * esize t < 400000.
+Definition small (t : node) : Prop := 4 * Z.of_nat (esize t) < 400000.
 
 Lemma strewrite_simple t : simple t = true -> strewrite t = Some t.
 Proof.
@@ -188,7 +190,7 @@ Proof.
   destruct (is_inc n rhs) eqn:Hinc.
   - (* the increment *)
     cbn [negb orb] in Hi.
-    apply (node_eqb_pure rhs (NBin "+" (NName n) (NInt 1)) Hp eq_refl) in Hi. subst rhs.
+    apply (node_eqb_pure rhs Hp (NBin "+" (NName n) (NInt 1)) eq_refl) in Hi. subst rhs.
     destruct (bytecode_run_inc n _ s s' v c m session_fuel Hinc Hwf Hid HB ltac:(unfold session_fuel; lia)) as [W R].
     split; [exact W|]. rewrite den_inc_left.
     destruct (Arith ADD (gval (v_globals v) n) (VInt 1)) as [y|err] eqn:EA; cbn [fst snd].
